@@ -55,26 +55,38 @@ Definition is_prefix2 (a b : ascii) (x : str) : option str :=
   match x with c :: d :: r => if Ascii.eqb a c && Ascii.eqb b d then Some r else None | _ => None end.
 
 (* parse_args catches argparse.ArgumentError (a value is missing), warns, and keeps
-   what was parsed before the malformed argument; -O takes an OPTIONAL value *)
-Fixpoint extract_incs (argv : list str) : list str :=
+   what was parsed before the malformed argument; -O takes an OPTIONAL value.
+   -I values and -isystem values are collected in two lists (each in command-line
+   order); include_paths = the -I list followed by the -isystem list. *)
+Fixpoint extract_pair (argv : list str) : list str * list str :=
   match argv with
-  | [] => []
+  | [] => ([], [])
   | a :: r =>
-      if str_eqb a (s "-I") || str_eqb a (s "-isystem") then
+      if str_eqb a (s "-I") then
         match r with
-        | v :: r' => if starts_dash v then [] else v :: extract_incs r'
-        | [] => []
+        | v :: r' => if starts_dash v then ([], [])
+                     else let (u, y) := extract_pair r' in (v :: u, y)
+        | [] => ([], [])
+        end
+      else if str_eqb a (s "-isystem") then
+        match r with
+        | v :: r' => if starts_dash v then ([], [])
+                     else let (u, y) := extract_pair r' in (u, v :: y)
+        | [] => ([], [])
         end
       else if str_eqb a (s "-D") || str_eqb a (s "-include") || str_eqb a (s "-o") then
         match r with
-        | v :: r' => if starts_dash v then [] else extract_incs r'
-        | [] => []
+        | v :: r' => if starts_dash v then ([], []) else extract_pair r'
+        | [] => ([], [])
         end
       else match is_prefix2 "-" "I" a with
-           | Some v => v :: extract_incs r
-           | None => extract_incs r
+           | Some v => let (u, y) := extract_pair r in (v :: u, y)
+           | None => extract_pair r
            end
   end.
+
+Definition extract_incs (argv : list str) : list str :=
+  let (u, y) := extract_pair argv in u ++ y.
 
 (* ---- one iteration of the loop `for command in db` ---- *)
 Section Load.
